@@ -1,5 +1,6 @@
 import StoneVerif.Model.Graph
 import StoneVerif.Lemmas.GraphComplete
+import StoneVerif.Lemmas.GraphAliases
 /-!
 # C20 — a route whitelist yields a dependency-closed, minimal API
 
@@ -324,62 +325,132 @@ theorem mem_hardRefs_iff (g : Graph) (a b : Id) : b ∈ hardRefs g a ↔ HardEdg
     | routeResult hn hk hb => simp [hardRefs, hn, Node.hardRefs, hk, hb]
     | routeError hn hk hb => simp [hardRefs, hn, Node.hardRefs, hk, hb]
 
-/-- the full statement of `no_dangling` is FALSE of the code: every alias is retained, also when its
-target was removed (hand spec `graph_m1_alias`: the generated module raises `NameError`). -/
-example : aliasesOf gAlias (wlOne "a" "r") = some ["a.TA"] ∧ typesOf gAlias (wlOne "a" "r") = some ["a.S"] ∧
-    "a.T" ∈ hardRefs gAlias "a.TA" := by decide
+/-- REGRESSION (D16, repaired in /repo by "a route whitelist drops the aliases of data types it
+removed"; was the witness that every alias survived): `alias TA = T` goes when `T` goes (hand spec
+`graph_m1_alias`), and stays when `T` is whitelisted. -/
+example : aliasesOf gAlias (wlOne "a" "r") = some [] ∧ typesOf gAlias (wlOne "a" "r") = some ["a.S"] ∧
+    "a.T" ∈ hardRefs gAlias "a.TA" ∧
+    aliasesOf gAlias { routes := [], datatypes := [("a", ["T"])] } = some ["a.TA"] := by decide
 
-/--
-PARTIAL. Full statement (`no_dangling`): every reference held by a retained item (data type, route,
-alias) names a retained item. Missing: aliases the walk did not reach - all aliases are retained, and
-such an alias may refer to a removed data type (witness above). Proved: every reference held by a
-retained data type, by a retained route, or by an alias the walk reached names a retained data type
-or an alias the walk reached (so the chain through aliases ends in retained types).
--/
-theorem no_dangling_partial (g : Graph) (wl : Whitelist) (r : Filtered) (hwf : g.refsOk = true)
+/-- the items the filtered Api shows to a backend -/
+def Retained (r : Filtered) (a : Id) : Prop := a ∈ r.types ∨ a ∈ r.routes ∨ a ∈ r.aliases
+
+/-- an alias the walk reached is retained -/
+theorem reached_aliases_retained (g : Graph) (wl : Whitelist) (r : Filtered) (hwf : g.refsOk = true)
     (hda : docsAgree g = true) (h : whitelistFilter g wl = .ok r) :
-    ∀ a, (a ∈ r.types ∨ a ∈ r.routes ∨ a ∈ r.reachedAliases g) → ∀ b ∈ hardRefs g a,
-      (b ∈ r.types ∨ b ∈ r.reachedAliases g) := by
-  obtain ⟨st, wlRoutes, hrun, e1, e2, e4⟩ := filterRun_of_ok hwf hda h
-  have hreached : ∀ i, i ∈ r.reachedAliases g ↔ (Item.node i ∈ st.seen ∧ g.isAliasId i = true) := by
-    intro i
+    ∀ a ∈ r.reachedAliases g, a ∈ r.aliases := by
+  obtain ⟨st, wlRoutes, hrun, e1, e2, e4, hals⟩ := filterRun_of_ok hwf hda h
+  obtain ⟨hall, hmem⟩ := filterAliases_mem hals
+  intro a ha
+  simp only [Filtered.reachedAliases, e4, List.mem_filterMap] at ha
+  obtain ⟨it, hit, hx⟩ := ha
+  cases it with
+  | field o f c => simp at hx
+  | node j =>
+    simp only at hx
+    split at hx
+    · rename_i hal
+      have : j = a := by simpa using hx
+      subst this
+      obtain ⟨nd, hnd, hk⟩ := isAliasId_iff.1 hal
+      have hin : j ∈ g.allAliases := mem_allAliases.2 ⟨nd, hnd, hk⟩
+      obtain ⟨nd', b, hnd', hb⟩ := hall j hin
+      rw [hnd] at hnd'; cases hnd'
+      refine (hmem j).2 ⟨hin, nd, hnd, ?_⟩
+      -- everything the walk marked: data types are retained, aliases keep their targets marked
+      have hb' : b = true := targetRetained_of_closed (fun i => Item.node i ∈ st.seen)
+        (fun i n hi hn ht => (hrun.inv.types i).2 ⟨hi, isTypeId_iff.2 ⟨n, hn, ht⟩⟩)
+        (fun i n hi hn hal' c hc => by
+          have hkind : n.kind = .alias := by
+            rcases kind_cases n with h' | h' | h'
+            · simp [hal'] at h'
+            · exact h'.2.2.2
+            · simp [hal'] at h'
+          exact known_closed_hard hwf hda hrun (Or.inl hi) (.aliasTarget hn hkind hc))
+        hb
+        (fun c hc => by
+          have hkind : nd.kind = .alias := by
+            rcases kind_cases nd with h' | h' | h'
+            · simp [hk] at h'
+            · exact h'.2.2.2
+            · simp [hk] at h'
+          exact known_closed_hard hwf hda hrun (Or.inl hit) (.aliasTarget hnd hkind hc))
+      rw [← hb']; exact hb
+    · simp at hx
+
+/-- NO DANGLING REFERENCE: every reference held by a retained item - the field / tag types, parent
+and enumerated subtypes of a data type, the signature of a route, the target of an alias - names a
+retained data type or a retained alias. (Side condition as for `filter_subset_closure`: `docsAgree`;
+the dangling-reference scan of the harness judges every case, also where it fails.) -/
+theorem no_dangling (g : Graph) (wl : Whitelist) (r : Filtered) (hwf : g.refsOk = true)
+    (hda : docsAgree g = true) (h : whitelistFilter g wl = .ok r) :
+    ∀ a, Retained r a → ∀ b ∈ hardRefs g a, (b ∈ r.types ∨ b ∈ r.aliases) := by
+  obtain ⟨st, wlRoutes, hrun, e1, e2, e4, hals⟩ := filterRun_of_ok hwf hda h
+  obtain ⟨hall, hmem⟩ := filterAliases_mem hals
+  have hreached := reached_aliases_retained g wl r hwf hda h
+  have hreachedIff : ∀ i, (Item.node i ∈ st.seen ∧ g.isAliasId i = true) → i ∈ r.reachedAliases g := by
+    intro i ⟨h1, h2⟩
     simp only [Filtered.reachedAliases, e4, List.mem_filterMap]
-    constructor
-    · rintro ⟨it, hit, hx⟩
-      cases it with
-      | node j =>
-        simp only at hx
-        split at hx
-        · rename_i hal
-          have : j = i := by simpa using hx
-          subst this
-          exact ⟨hit, hal⟩
-        · simp at hx
-      | field o f c => simp at hx
-    · rintro ⟨h1, h2⟩
-      exact ⟨.node i, h1, by simp [h2]⟩
+    exact ⟨.node i, h1, by simp [h2]⟩
+  -- a marked node is a retained data type or a retained alias
+  have hseen : ∀ b, Item.node b ∈ st.seen → (b ∈ r.types ∨ b ∈ r.aliases) := by
+    intro b hb
+    obtain ⟨kids, rts, he, _⟩ := seen_node hrun.inv hb
+    obtain ⟨n, hn, hnr⟩ := expand_node_kind he
+    rcases kind_cases n with h' | h' | h'
+    · left
+      rw [e1]
+      exact (hrun.inv.types b).2 ⟨hb, isTypeId_iff.2 ⟨n, hn, h'.1⟩⟩
+    · right
+      exact hreached b (hreachedIff b ⟨hb, isAliasId_iff.2 ⟨n, hn, h'.2.1⟩⟩)
+    · simp [hnr] at h'
   intro a ha b hb
-  have hedge := (mem_hardRefs_iff g a b).1 hb
-  have hknown : Known g wl st a := by
-    rcases ha with ha | ha | ha
-    · rw [e1] at ha
-      exact Or.inl ((hrun.inv.types a).1 ha).1
-    · rw [e2, mem_addAll, hrun.wlr] at ha
+  rcases ha with ha | ha | ha
+  · rw [e1] at ha
+    exact hseen b (known_closed_hard hwf hda hrun (Or.inl ((hrun.inv.types a).1 ha).1)
+      ((mem_hardRefs_iff g a b).1 hb))
+  · rw [e2, mem_addAll, hrun.wlr] at ha
+    have hk : Known g wl st a := by
       rcases ha with ha | ha
       · simp at ha
       · rcases List.mem_append.1 ha with ha | ha
         · exact Or.inr (Or.inl ha)
         · exact Or.inr (Or.inr (Or.inl ha))
-    · exact Or.inl ((hreached a).1 ha).1
-  have hseen := known_closed_hard hwf hda hrun hknown hedge
-  obtain ⟨kids, rts, he, _⟩ := seen_node hrun.inv hseen
-  obtain ⟨n, hn, hnr⟩ := expand_node_kind he
-  rcases kind_cases n with h' | h' | h'
-  · left
-    rw [e1]
-    exact (hrun.inv.types b).2 ⟨hseen, isTypeId_iff.2 ⟨n, hn, h'.1⟩⟩
-  · right
-    exact (hreached b).2 ⟨hseen, isAliasId_iff.2 ⟨n, hn, h'.2.1⟩⟩
-  · simp [hnr] at h'
+    exact hseen b (known_closed_hard hwf hda hrun hk ((mem_hardRefs_iff g a b).1 hb))
+  · -- a retained alias: its check was positive
+    obtain ⟨hin, nd, hnd, hcheck⟩ := (hmem a).1 ha
+    obtain ⟨nd', hnd', hal⟩ := mem_allAliases.1 hin
+    rw [hnd] at hnd'; cases hnd'
+    have hkind : nd.kind = .alias := by
+      rcases kind_cases nd with h' | h' | h'
+      · simp [hal] at h'
+      · exact h'.2.2.2
+      · simp [hal] at h'
+    have hb' : b ∈ nd.target.refs := by simpa [hardRefs, hnd, Node.hardRefs, hkind] using hb
+    obtain ⟨nb, hnb, hcase⟩ := targetRetained_true hcheck b hb'
+    rcases hcase with ⟨_, _, hret⟩ | ⟨halb, f', hf'⟩
+    · left; rw [e1]; exact hret
+    · right
+      have hbin : b ∈ g.allAliases := mem_allAliases.2 ⟨nb, hnb, halb⟩
+      obtain ⟨nb', bb, hnb', hbb⟩ := hall b hbin
+      rw [hnb] at hnb'; cases hnb'
+      have : bb = true := targetRetained_det hbb hf'
+      exact (hmem b).2 ⟨hbin, nb, hnb, by rw [← this]; exact hbb⟩
+
+/-- every retained alias is an alias of the dump whose whole target expression is retained: nothing
+is invented, and what is dropped is dropped because a data type it mentions was removed -/
+theorem aliases_kept_iff (g : Graph) (wl : Whitelist) (r : Filtered) (hwf : g.refsOk = true)
+    (hda : docsAgree g = true) (h : whitelistFilter g wl = .ok r) :
+    ∀ a, a ∈ r.aliases ↔ (g.isAliasId a = true ∧ ∃ nd, g.node? a = some nd ∧
+      targetRetained g r.types (g.dfsFuel 0) nd.target.refs = .ok true) := by
+  obtain ⟨st, wlRoutes, hrun, e1, e2, e4, hals⟩ := filterRun_of_ok hwf hda h
+  obtain ⟨_, hmem⟩ := filterAliases_mem hals
+  intro a
+  rw [hmem a, e1]
+  constructor
+  · rintro ⟨hin, hrest⟩
+    exact ⟨isAliasId_iff.2 (mem_allAliases.1 hin), hrest⟩
+  · rintro ⟨hal, hrest⟩
+    exact ⟨mem_allAliases.2 (isAliasId_iff.1 hal), hrest⟩
 
 end StoneVerif.C20
